@@ -49,6 +49,12 @@ func (w *World) Pairs(r *vgen.Rand) [][2]addr.IA {
 		}
 	}
 	vgen.Shuffle(r, out)
+	// pairs of non-core ASes first: their paths have several segments, shortcuts, peering links
+	sort.SliceStable(out, func(i, j int) bool {
+		ci := w.Net.AS(out[i][0]).AS.Core || w.Net.AS(out[i][1]).AS.Core
+		cj := w.Net.AS(out[j][0]).AS.Core || w.Net.AS(out[j][1]).AS.Core
+		return !ci && cj
+	})
 	return out
 }
 
@@ -200,10 +206,14 @@ func Main(prop, checkFn, rule string, body func(x *Ctx)) {
 	run.DiagFn = "Prov.diag"
 	run.CaseType = "Prov.case"
 	run.Rule = rule
-	run.ShardSize = 40
+	// small shards in the quick tier: bin/check compiles up to 16 shards in parallel
+	run.ShardSize = 12
+	if run.Tier == "thorough" {
+		run.ShardSize = 60
+	}
 	x := &Ctx{Run: run, Rng: vgen.NewRand(run.Seed), Now: time.Now().Unix()}
 	body(x)
-	run.Prelude = strings.Join(x.defs, "\n")
+	run.Prelude = IADefs() + strings.Join(x.defs, "\n")
 	run.Finish()
 }
 
@@ -247,7 +257,7 @@ func (x *Ctx) EachPath(nWorlds, perWorld int, f func(i int, w *World, p *Path, r
 	for wi := 0; wi < nWorlds; wi++ {
 		w := x.World(wi)
 		r := x.Rng.Fork(uint64(2_000_000 + wi))
-		count := 0
+		count, plain := 0, 0
 		for _, pr := range w.Pairs(r) {
 			if count >= perWorld {
 				break
@@ -261,6 +271,13 @@ func (x *Ctx) EachPath(nWorlds, perWorld int, f func(i int, w *World, p *Path, r
 			for _, p := range ps {
 				if count >= perWorld {
 					break
+				}
+				if p.Kind() == "1seg" {
+					// a single full segment: keep a few per network only
+					if plain >= 2 {
+						continue
+					}
+					plain++
 				}
 				_, _, borderline := p.ExpiryMargin(x.Now)
 				if borderline {
